@@ -475,7 +475,10 @@ class Inotify:
                     full_path = os.path.join(root, dirname)
                     if not self._follow_symlink and os.path.islink(full_path):
                         continue
-                    self._add_watch(full_path, mask)
+                    # An entry that vanished (or was replaced by a file) since the listing is skipped:
+                    # the walk goes on with the rest of the tree.
+                    with contextlib.suppress(FileNotFoundError, NotADirectoryError):
+                        self._add_watch(full_path, mask)
 
     def _add_watch(self, path: bytes, mask: int) -> int:
         """Adds a watch for the given path to monitor events specified by the
